@@ -56,15 +56,40 @@ E2 == (0..BS) \X (0..BS)
 E3 == (0..BS) \X (0..BS) \X (0..BS)
 F3 == ((-FNEG)..FHI) \X ((-FNEG)..FHI) \X ((-FNEG)..FHI)
 
-Cases2  == {Seq2Case(d) : d \in E2}
-Cases3  == {Seq3Case(d) : d \in E3}
-CasesA  == {Arr3Case(d) : d \in E3}
-CasesF  == {ForEachCase(lo, hi) : lo \in F3, hi \in F3}
+\* complete tables for extents with an axis around a power of two (coordinates kept in 8 / 16 bits would show here)
+XE2 == {<<257, 2>>, <<2, 257>>, <<256, 3>>, <<129, 2>>, <<1, 513>>}
+XE3 == {<<257, 2, 1>>, <<1, 2, 257>>, <<2, 129, 2>>, <<128, 1, 3>>, <<3, 256, 1>>}
+\* for_each regions with bounds around powers of two and at the ends of int
+IMAX == 2147483647
+FB == { << <<254, 0, 65535>>, <<258, 1, 65537>> >>, << <<127, 255, 0>>, <<129, 257, 2>> >>, << <<0, 32767, 4095>>, <<1, 32769, 4097>> >>,
+        << <<IMAX - 2, -IMAX, 0>>, <<IMAX, -IMAX + 2, 1>> >>, << <<-IMAX, IMAX - 1, -1>>, <<-IMAX + 1, IMAX, 1>> >>,
+        << <<IMAX, 0, 0>>, <<IMAX, 1, 1>> >>, << <<IMAX - 1, IMAX - 1, IMAX - 1>>, <<IMAX, IMAX, IMAX>> >>,
+        << <<-IMAX, -IMAX, -IMAX>>, <<-IMAX + 1, -IMAX + 2, -IMAX + 1>> >>, << <<0, 0, 0>>, <<300, 1, 1>> >>, << <<0, 0, 0>>, <<1, 1, 300>> >>,
+        << <<-2, -2, -2>>, <<2, 2, 2>> >>, << <<-IMAX, -1, 0>>, <<-IMAX + 2, 1, 2>> >>, << <<-3, IMAX - 1, -1>>, <<1, IMAX, 0>> >> }
+
+\* two sequences / two extents used ALTERNATELY by one thread (a cache of the last extent inside the code would show):
+\* the driver advances two iterators in turn and alternates flatten / reshape / longIndex / coordsOf between them
+IL == { << <<2, 3, 2>>, <<3, 2, 4>> >>, << <<4, 1, 2>>, <<1, 4, 3>> >>, << <<1, 1, 5>>, <<5, 1, 1>> >>, << <<3, 3, 1>>, <<3, 3, 2>> >>, << <<3, 2, 2>>, <<3, 4, 2>> >>, << <<2, 6, 1>>, <<4, 3, 2>> >> }
+InterleaveCase(d, e) ==
+  [a |-> "Interleave3", cls |-> "", arg |-> [d |-> d, e |-> e, coords_d |-> In3(d), coords_e |-> In3(e)],
+   exp |-> [iter_d |-> IterSeq3(d), iter_e |-> IterSeq3(e),
+            flatten_d |-> [k \in 1..Total3(d) |-> Flatten3(d, In3(d)[k])], flatten_e |-> [k \in 1..Total3(e) |-> Flatten3(e, In3(e)[k])],
+            index_d |-> [k \in 1..Total3(d) |-> LongIndex(In3(d)[k], d)], index_e |-> [k \in 1..Total3(e) |-> LongIndex(In3(e)[k], e)],
+            reshape_d |-> [k \in 1..Total3(d) |-> Reshape3(d, k - 1)], reshape_e |-> [k \in 1..Total3(e) |-> Reshape3(e, k - 1)],
+            coords_d |-> [k \in 1..Total3(d) |-> CoordsOf(k - 1, d)], coords_e |-> [k \in 1..Total3(e) |-> CoordsOf(k - 1, e)]]]
+
+Cases2  == {Seq2Case(d) : d \in E2 \cup XE2}
+Cases3  == {Seq3Case(d) : d \in E3 \cup XE3}
+CasesA  == {Arr3Case(d) : d \in E3 \cup XE3}
+CasesF  == {ForEachCase(lo, hi) : lo \in F3, hi \in F3} \cup {ForEachCase(b[1], b[2]) : b \in FB}
+CasesI  == {InterleaveCase(p[1], p[2]) : p \in IL} \cup {InterleaveCase(p[2], p[1]) : p \in IL}
+ASSUME \A b \in FB : LET q == ForEachSeq(b[1], b[2]) IN ExactlyOnce(q, Region(b[1], b[2])) /\ \A k \in 1..(Len(q) - 1) : Before3(q[k], q[k + 1])
 
 ASSUME ndJsonSerialize(IOEnv.OUT \o "-seq2", SetToSeq(Cases2))
 ASSUME ndJsonSerialize(IOEnv.OUT \o "-seq3", SetToSeq(Cases3))
 ASSUME ndJsonSerialize(IOEnv.OUT \o "-arr3", SetToSeq(CasesA))
 ASSUME ndJsonSerialize(IOEnv.OUT \o "-foreach", SetToSeq(CasesF))
+ASSUME ndJsonSerialize(IOEnv.OUT \o "-interleave", SetToSeq(CasesI))
 ASSUME PrintT(<<"cases", Cardinality(Cases2), Cardinality(Cases3), Cardinality(CasesA), Cardinality(CasesF)>>)
 
 VARIABLE x
